@@ -9,7 +9,8 @@ import RTV.Gen.DtMapsX2
   dtfmt luisdate y m d | luistime h mi s/none | shorttime h mi/none s/none | fmtdate dt | fmttime dt | fmtdt dt
         | topm cps | allpm cps | int cps | fmtd w i          -> cps   or err:ValueError
   gendates noYear ref y m d                                  -> future|past
-  m2t ref variant(1 = `if not hour`, 0 = repaired `is None`) <19 group fields> ltohMatched deltamin deltaminnum full oclock am pm lunch night   -> res or err:<Kind>
+  m2t ref culture variant(1 = `if not hour`, 0 = repaired `is None`) elsePm(1 = adjust_by_suffix has the closing else) <19 group fields>
+      ltohMatched deltamin deltaminnum tokenFlags full oclock am pm lunch night   -> res or err:<Kind>
   wordhour ref source                                        -> res or none
   m2d culture ref year fullYear month day writtenYear        -> res or err:<Kind>
   res dtype ok timex comment future past                     -> values or none or err:<Kind>
@@ -70,26 +71,46 @@ def hGenDates : Handler
     s!"{showDT f}|{showDT p}"
   | _ => "bad-op"
 
-/-- the 19 group fields + 3 prefix-regex fields + 6 suffix-regex fields of an English `match_to_time` call -/
+/-- numbers table, prefix style and suffix style of a culture's TimeParserConfiguration -/
+def timeStyleOf (tag : String) (elsePm : Bool) : Option (List (List Nat × Nat) × PrefixStyle × SuffixStyle) :=
+  open RTV.Gen.DtMaps in
+  match tag with
+  | "en" => some (numbers_en, enPrefixStyle, enSuffixStyle elsePm)
+  | "es" => some (numbers_es, esPrefixStyle, simpleSuffixStyle)
+  | "esmx" => some (numbers_esmx, esPrefixStyle, simpleSuffixStyle)
+  | "fr" => some (numbers_fr, frPrefixStyle, simpleSuffixStyle)
+  | "pt" => some (numbers_pt, ptPrefixStyle, nightSuffixStyle elsePm)
+  | "it" => some (numbers_it, itPrefixStyle, nightSuffixStyle elsePm)
+  | "de" => some (numbers_de, dePrefixStyle, nightSuffixStyle elsePm)
+  | "nl" => some (numbers_nl, nlPrefixStyle, nlSuffixStyle)
+  | _ => none
+
+def parseFlags (f : String) : List Bool := f.toList.map (· == '1')
+
+/-- culture tag, hour-0 variant, suffix `else` variant, the 19 group fields, 3 prefix-regex fields, the token-regex
+flags (a string of 0/1), 6 suffix-regex fields of a `match_to_time` call -/
 def parseTimeCall (fs : List String) : Option (TimeGroups × TimeCfg) :=
   match fs with
-  | [variant, wt, hn, mn, tens, mid, mnt, mmo, maf, mdy, hour, min, sec, amD, ampmD, pmD, iam, ipm, pfx, sfx,
-     ltohM, dm, dmn, full, oclock, am, pm, lunch, night] =>
-    let g : TimeGroups := {
-      writtenTime := parseCps wt, hourNum := parseCps hn, minNum := parseCps mn, tens := parseCps tens,
-      mid := parseCps mid, midNight := parseCps mnt, midMorning := parseCps mmo, midAfternoon := parseCps maf,
-      midDay := parseCps mdy, hour := parseCps hour, min := parseCps min, sec := parseCps sec,
-      amDesc := parseBool amD, amPmDesc := parseBool ampmD, pmDesc := parseBool pmD,
-      implAm := parseCps iam, implPm := parseCps ipm, pfx := parseCps pfx, sfx := parseCps sfx }
-    let ltoh := if parseBool ltohM then some (parseCps dm, parseCps dmn) else none
-    let si : SuffixInfo := { full := parseBool full, oclock := parseCps oclock, am := parseCps am, pm := parseCps pm,
-                             lunch := parseBool lunch, night := parseBool night }
-    let cfg : TimeCfg := {
-      numbers := RTV.Gen.DtMaps.numbers_en
-      zeroHourIsNone := parseBool variant
-      adjustByPrefix := enAdjustByPrefix drvUni RTV.Gen.DtMaps.numbers_en ltoh
-      adjustBySuffix := fun _ a => .ok (enAdjustBySuffix si a) }
-    some (g, cfg)
+  | [tag, variant, elsePm, wt, hn, mn, tens, mid, mnt, mmo, maf, mdy, hour, min, sec, amD, ampmD, pmD, iam, ipm, pfx, sfx,
+     ltohM, dm, dmn, flags, full, oclock, am, pm, lunch, night] =>
+    match timeStyleOf tag (parseBool elsePm) with
+    | none => none
+    | some (numbers, pst, sst) =>
+      let g : TimeGroups := {
+        writtenTime := parseCps wt, hourNum := parseCps hn, minNum := parseCps mn, tens := parseCps tens,
+        mid := parseCps mid, midNight := parseCps mnt, midMorning := parseCps mmo, midAfternoon := parseCps maf,
+        midDay := parseCps mdy, hour := parseCps hour, min := parseCps min, sec := parseCps sec,
+        amDesc := parseBool amD, amPmDesc := parseBool ampmD, pmDesc := parseBool pmD,
+        implAm := parseCps iam, implPm := parseCps ipm, pfx := parseCps pfx, sfx := parseCps sfx }
+      let ltoh := if parseBool ltohM then some (parseCps dm, parseCps dmn) else none
+      let si : SuffixInfo := { full := parseBool full, oclock := parseCps oclock, am := parseCps am, pm := parseCps pm,
+                               lunch := parseBool lunch, night := parseBool night }
+      let cfg : TimeCfg := {
+        numbers := numbers
+        zeroHourIsNone := parseBool variant
+        adjustByPrefix := adjustByPrefixG drvUni numbers pst (parseFlags flags) ltoh
+        adjustBySuffix := fun _ a => .ok (adjustBySuffixG sst si a) }
+      some (g, cfg)
   | _ => none
 
 def enTimeCfgPlain : TimeCfg := {
